@@ -441,3 +441,60 @@ func HarnessC20Shell() {
 		verifCheck(strings.Contains(s, "echo _________________") && !strings.Contains(s, "${{"), "script-passed-without-sanitising")
 	}
 }
+
+// HarnessC20TwoJobs: two jobs with their own runner (Linux / Windows) and
+// optional job default shell, visited in either order: each job's script goes
+// to shellcheck iff that job's own effective shell is bash / sh — nothing
+// carries over from the job visited before.
+func HarnessC20TwoJobs() {
+	native := verifIsNative()
+	shells := []string{"", "bash", "pwsh"}
+	want := 0
+	src := "on: push\njobs:\n"
+	for _, id := range []string{"a", "b"} {
+		windows := verifChoose("runner-"+id, 2) == 1
+		js := shells[verifChoose("shell-"+id, len(shells))]
+		src += "  " + id + ":\n    runs-on: "
+		if windows {
+			src += "windows-latest\n"
+		} else {
+			src += "ubuntu-latest\n"
+		}
+		if js != "" {
+			src += "    defaults:\n      run:\n        shell: " + js + "\n"
+		}
+		src += "    steps:\n      - run: echo " + id + "\n"
+		eff := js
+		if eff == "" {
+			eff = "bash"
+			if windows {
+				eff = "pwsh"
+			}
+		}
+		if eff == "bash" {
+			want++
+		}
+	}
+	reps := 1
+	if native {
+		reps = 40 // Go's own random job order
+	}
+	for r := 0; r < reps; r++ {
+		n := 0
+		if native {
+			c1, d1 := verifC20NativeTool("[]", 0)
+			verifLintNode(verifParseYAML(src), []Rule{newRuleShellcheck(c1)})
+			c1.proc.wait()
+			n, _ = d1()
+		} else {
+			verifC20R = verifC20Rec{}
+			verifOverride("(*externalCommand).run", verifC20RecRun)
+			verifMapOrder(true, "Visit", "visitJobs")
+			verifLintNode(verifParseYAML(src), []Rule{newRuleShellcheck(&externalCommand{exe: "shellcheck"})})
+			verifMapOrder(false)
+			n = len(verifC20R.scripts)
+		}
+		verifCheckf(n == want, "shellcheck-invocations-differ-from-effective-shell", src)
+	}
+	verifReach("linted")
+}
